@@ -241,7 +241,7 @@ func nativeReplayOpt(dir, harness string, paths []string, race bool) (map[string
 	rt, _ := os.ReadFile(filepath.Join(verifRoot(), "harness", "rt", "zz_verif_replay_test.go"))
 	files[filepath.Join(pkgDir, "zz_verif_replay_test.go")] = []byte(strings.Replace(string(rt), "package verifrt", "package "+pkgName, 1))
 	var entries []string
-	usesNow, usesLock := false, false
+	usesNow, usesLock, usesAtomic := false, false, false
 	for p, b := range files {
 		if strings.HasSuffix(p, "_test.go") {
 			continue
@@ -254,6 +254,9 @@ func nativeReplayOpt(dir, harness string, paths []string, race bool) (map[string
 		}
 		if strings.Contains(string(b), "func verifLock") {
 			usesLock = true
+		}
+		if strings.Contains(string(b), "func verifAtomicLoadU32") {
+			usesAtomic = true
 		}
 	}
 	sort.Strings(entries)
@@ -273,7 +276,7 @@ func nativeReplayOpt(dir, harness string, paths []string, race bool) (map[string
 			replace[src] = "" // mask the package's own tests
 			continue
 		}
-		if !usesNow && !usesLock && len(loadRewrites(hdir)) == 0 {
+		if !usesNow && !usesLock && !usesAtomic && len(loadRewrites(hdir)) == 0 {
 			continue
 		}
 		b, err := os.ReadFile(src)
@@ -287,6 +290,10 @@ func nativeReplayOpt(dir, harness string, paths []string, race bool) (map[string
 		}
 		if usesLock {
 			ns = lockCallRe.ReplaceAllString(ns, "verifLock(&$1)")
+		}
+		if usesAtomic {
+			ns = strings.ReplaceAll(ns, "atomic.LoadUint32(", "verifAtomicLoadU32(")
+			ns = strings.ReplaceAll(ns, "atomic.LoadInt32(", "verifAtomicLoadI32(")
 		}
 		for _, rw := range loadRewrites(hdir) {
 			if rw.File == base {
